@@ -110,6 +110,20 @@ def run(prop: str, tier: str) -> int:
                 group.append(instr)
                 group_fl = fl
         flush_group()
+        # printed assembly that names every one of R0..R15 (and a negative constant, an array entry, a slice): the
+        # assembler has no free register left and needs none, since printed text has no literal to materialise
+        for fl in ("vanilla", "nv"):
+            byname = {c.mnemonic: (c, table[fl][k]["shape"]) for k, c in enumerate(clss[fl])}
+            def mk(mn, ops):
+                c_, sh = byname[mn]
+                return isa.build(c_, sh, ops)
+            try:
+                group = [mk("add", [0, 1, 2]), mk("add", [3, 4, 5]), mk("sub", [6, 7, 8]), mk("add", [9, 10, 11]), mk("sub", [12, 13, 14]),
+                         mk("set", [15, -3]), mk("add", [15, 0, 1])]
+                group_fl = fl
+                flush_group()
+            except KeyError:
+                pass
         cov = {
             "states": r.distinct, "transitions": r.generated,
             "traces_validated_against_impl": evals, "evaluations": evals, "distinct_nontrivial": len(nontriv),
